@@ -210,7 +210,69 @@ func checkC11(c *Ctx, r *Report) {
 				}
 			}
 		}
-		o := r.add("C11.c", "sibling", "pair:"+key, "3.0 "+pr[0]+" and 3.1 "+pr[1]+" read the same IR fields and call the same shared helpers (modulo tables/dialect.json)", []string{f30.Key, f31.Key}, sites, viol)
+		// the siblings decide on the same IR fields: an emitter that makes part of its output
+		// conditional on a field the other emits unconditionally (or vice versa) describes the
+		// same project differently
+		irConds := func(fi *FuncInfo, ownPkg string) map[string]bool {
+			out := map[string]bool{}
+			// the function, the new functions it uses, and own helpers the other emitter does not
+			// have (written in line there)
+			fns := w.astRegion(fi)
+			seenFn := map[string]bool{}
+			for _, f := range fns {
+				seenFn[f.Key] = true
+			}
+			for i := 0; i < len(fns) && i < 12; i++ {
+				cur := fns[i]
+				if cur.Decl.Body == nil {
+					continue
+				}
+				ast.Inspect(cur.Decl.Body, func(n ast.Node) bool {
+					if cl, ok := n.(*ast.CallExpr); ok {
+						if name := calleeOfCall(cur.Pkg.TypesInfo, cl); strings.HasPrefix(name, ownPkg+".") && !seenFn[name] {
+							if tgt := w.Funcs[name]; tgt != nil && !w.hasSiblingFn(ownPkg, strings.TrimPrefix(name, ownPkg+".")) {
+								seenFn[name] = true
+								fns = append(fns, tgt)
+							}
+						}
+					}
+					return true
+				})
+			}
+			// (the fields written in the conditions themselves, not everything the tested values derive from)
+			for _, rf := range fns {
+				info := rf.Pkg.TypesInfo
+				for _, ce := range branchConds(rf) {
+					ast.Inspect(ce, func(n ast.Node) bool {
+						if se, ok := n.(*ast.SelectorExpr); ok {
+							if sel := info.Selections[se]; sel != nil && sel.Kind() == types.FieldVal {
+								if q := qualField(info, se); strings.HasPrefix(q, "definitions.") {
+									out[q] = true
+								}
+							}
+						}
+						return true
+					})
+				}
+			}
+			return out
+		}
+		c30, c31 := irConds(f30, p30), irConds(f31, p31)
+		for k := range c30 {
+			if !c31[k] {
+				if _, tabled := dt.Only30[key]["cond:"+k]; !tabled {
+					viol = fmt.Sprintf("%s: 3.0 %s branches on %s, the 3.1 sibling %s does not: part of one document is conditional on it while the other emits it unconditionally", w.pos(f30.Decl.Pos()), pr[0], k, pr[1])
+				}
+			}
+		}
+		for k := range c31 {
+			if !c30[k] {
+				if _, tabled := dt.Only31[key]["cond:"+k]; !tabled {
+					viol = fmt.Sprintf("%s: 3.1 %s branches on %s, the 3.0 sibling %s does not: part of one document is conditional on it while the other emits it unconditionally", w.pos(f31.Decl.Pos()), pr[1], k, pr[0])
+				}
+			}
+		}
+		o := r.add("C11.c", "sibling", "pair:"+key, "3.0 "+pr[0]+" and 3.1 "+pr[1]+" read the same IR fields, branch on the same IR fields and call the same shared helpers (modulo tables/dialect.json)", []string{f30.Key, f31.Key}, sites, viol)
 		o.NonTrivial = true
 	}
 	// no unpaired emitter function that touches the IR
